@@ -48,6 +48,11 @@ STRUCT = doc("VerifH_CatalogStructure", {"K": 3, "MENU": 0}, {"K": 4, "MENU": 0}
 STRUCT_TAGS = doc("VerifH_CatalogStructure", {"K": 4, "MENU": 1}, {"K": 5, "MENU": 1})
 STRUCT_PARENS = doc("VerifH_CatalogStructure", {"K": 5, "MENU": 2}, {"K": 6, "MENU": 2})
 STRUCT_RESP = doc("VerifH_CatalogStructure", {"K": 4, "MENU": 3}, {"K": 5, "MENU": 3}, full_schema_lib=True)
+CROSSINC = doc("VerifH_CrossProjectInclude", {"K": 1}, {"K": 2}, stubsets=["location", "vfs-files"])
+MARSHAL = {"pkg": "catalog", "fn": "VerifH_MarshalStable", "quick": {"CROSS": 1}, "thorough": {"CROSS": 1},
+           "stubs": {"encoding/json.Marshal": "verifStubJSONMarshal"}, "replay_repeat": 3}
+FIXTURES = {"pkg": "core", "fn": "VerifH_Fixture", "quick": {}, "thorough": {}, "full_schema_lib": True,
+            "fixtures": 256, "fixtures_thorough": -1, "fixture_max_bytes": 20000, "step_budget": 60000000, "tolerated_inconclusive": ["budget: step budget"]}
 PGRAPH = doc("VerifH_PasteGraph", {"M": 3}, {"M": 4}, budget_violation=True, depth_budget=300)
 
 CHECKS = {
@@ -64,8 +69,10 @@ CHECKS = {
    doc("VerifH_PipelineTotal", {"K": 2, "MENU": 1}, {"K": 3, "MENU": 1}, budget_violation=True, full_schema_lib=True),
    doc("VerifH_PasteEqualsInline", {"K": 5, "MENU": 1}, {"K": 6, "MENU": 1}, budget_violation=True, depth_budget=300),
    PGRAPH,
+   FIXTURES,
   ],
   "assumptions": [
+   "translator validation (VerifH_Fixture): a sample (quick: 256, thorough: all) of the single-file fixtures of /repo/testdata up to 20000 bytes is pushed through the symbolic executor (whole real pipeline and schema library interpreted from SSA, no stub) and the outcome - verdict, message, index, line, quote, full structural rendering of the catalog - must equal what the native build computes for the same text in the same run; a disagreement makes the check inconclusive (it is an encoder defect, not a property violation); a fixture that crashes natively is a C01 violation",
    "schema library body delimiting (jschema/enum FromFile().Len()) replaced by a nondeterministic stub: on r remaining bytes returns any l in 1..r or an error; r = 0 is an error",
    "kit.ConvertError replaced by a stub returning an error with any position 0..len(body file)",
    "deep instances: jerr.NewLocation summarised (never faults; discharged separately by VerifH_LocationSpec up to its bound) and the message formatting of japiErrorUnexpectedChar replaced by a constant message; the shallow instances run both for real",
@@ -96,6 +103,7 @@ CHECKS = {
    {"pkg": "core", "fn": "VerifH_DeterminismUnusedParams", "quick": {}, "thorough": {}, "maporder": True, "replay_repeat": 30},
    doc("VerifH_DeterminismPathBinding", {}, {}, maporder=True, replay_repeat=30),
    doc("VerifH_CrossProject", {"K": 1}, {"K": 2}),
+   CROSSINC,
   ],
   "assumptions": DOC_ASSUME + ["map iteration order is a nondeterministic choice: at every Next of a map range the engine forks over all not yet visited entries, independently in the two runs of the self-composition",
                                "a counterexample is replayed natively up to 30 times (the Go runtime picks the order at random)"],
@@ -173,13 +181,18 @@ CHECKS = {
                   "existence of every used user type / enum named by schema-library ASTs", "tag/interaction cross references, format/notation (pipeline harness pending)"],
  },
  "C16": {
-  "title": "Concurrency (reduced to lock discipline)",
+  "title": "Concurrency (reduced to lock discipline and sequential non-interference)",
   "harnesses": [
    {"pkg": "catalog", "fn": "VerifH_OrderedMaps", "quick": {}, "thorough": {}, "instances": [{"T": t} for t in range(5)], "lock_monitor": True, "no_replay_kinds": ["lock"], "no_replay_asserts": ["C16.ordmap.update-callback-under-write-lock"]},
+   MARSHAL,
+   CROSSINC,
+   doc("VerifH_CrossProject", {"K": 1}, {"K": 2}),
   ],
   "assumptions": ["lockset monitor: every load/store of the collection's data/order fields, of the map object and of the order slice's elements must happen with the collection's mutex held (write-held for writes); Lock on a held mutex = self-deadlock; no lock may remain held after the operation",
-                  "violations of kind 'lock' are not replayed natively (a single-threaded run cannot exhibit them)"],
-  "not_decided": ["everything schedule-dependent: data races between goroutines, equality of concurrent and solo results, races inside the schema library / regexp / reggen", "absence of shared mutable package state"],
+                  "violations of kind 'lock' are not replayed natively (a single-threaded run cannot exhibit them)",
+                  "sequential non-interference: (a) the bytes returned by one MarshalJSON of a collection are unchanged by later MarshalJSON calls of the same or another collection (encoding/json.Marshal replaced by a stub returning arbitrary non-empty bytes; sync.Pool modelled as one goroutine sees it: Get returns what was Put last); (b) a project validated after another project (also: at the same place of the file system with a different included file) gives the result it gives alone"],
+  "not_decided": ["everything schedule-dependent: data races between goroutines, equality of concurrent and solo results under real interleavings, races inside the schema library / regexp / reggen",
+                  "shared mutable package state is decided only through its sequential effects: a later validation or serialisation must not change or depend on an earlier one (VerifH_CrossProject*, VerifH_MarshalStable)"],
  },
  "C10": {
   "title": "Declaration order is free",
@@ -289,8 +302,10 @@ def main():
             "evidence_file": f"/verif/evidence/{pid}.json",
             "replay_cmd_template": "/verif/bin/gosym replay {path}",
             "engine": "gosym",
-            "level_claimed": {"category": "model_checking", "text": LEVEL_TEXT, "design_ref": f"DESIGN.md section 4, {pid}"},
-            "level_note": LEVEL_NOTE,
+            "level_claimed": {"category": "model_checking",
+                              "text": LEVEL_TEXT + ". Harnesses (entry points encoded): " + ", ".join(sorted({h["pkg"] + "." + h["fn"] for h in CHECKS[pid]["harnesses"]})) + ".",
+                              "design_ref": f"DESIGN.md section 4 ({pid}) and section 10"},
+            "level_note": LEVEL_NOTE + ". Not decided for this property: " + "; ".join(CHECKS[pid]["not_decided"]) + ".",
             "technique": "SMT-based bounded symbolic execution of Go SSA (own engine, z3), native replay of models",
         })
     m = {
